@@ -130,3 +130,63 @@ def long_frame(rng, gen: int, pid: int | None = None, size: int | None = None) -
         return w.frame(w.ADDR_CLIENT, w.ADDR_CONSOLE, pid, t, bytes(rng.randrange(256) for _ in range(size))), "unknown"
     sub = rng.choice([0xFF00, 0xFF14, 0xFF21, 0xFE11])
     return w.f_ext(pid, sub, bytes(rng.randrange(256) for _ in range(max(0, size - 2)))), "ext_unknown"
+
+
+FOREIGN_ADDRS = (0x00, 0x01, 0x7F, 0x81, 0x8F, 0x91, 0xA0, 0xB1, 0xB2, 0xBF, 0xC0, 0xFF)
+
+
+def foreign_address_frame(rng, gen: int) -> tuple[bytes, str]:
+    """A well-formed frame of an ordinary kind whose to / from address is not one of 0x80 / 0x90 / 0xB0: traffic between
+    the console and another client, seen on the same link. The socket layer delivers it like any other frame (the API
+    classes filter by address)."""
+    w = wire4 if gen == 4 else wire5
+    raw, kind = frame(rng, gen)
+    frs, verdict, _ = w.parse_stream(raw)
+    fr = frs[0]
+    to, frm = fr["to"], fr["frm"]
+    which = rng.choice(["to", "from", "both"])
+    if which in ("to", "both"):
+        to = rng.choice(FOREIGN_ADDRS)
+    if which in ("from", "both"):
+        frm = rng.choice(FOREIGN_ADDRS)
+    return w.frame(to, frm, fr["pid"], fr["type"], fr["data"]), kind
+
+
+def maximal_frame(rng, gen: int, pid: int | None = None) -> tuple[bytes, str]:
+    """A console frame of a defined kind at (or near) the largest size its layout allows: error text and version strings up
+    to the 255 bytes their length byte can announce, sixteen long names, an ability answer for many air-conditioners."""
+    if pid is None:
+        pid = rng.randrange(256)
+    w = wire4 if gen == 4 else wire5
+    kind = rng.choice(["error_info", "version", "names", "ability"])
+    if kind == "error_info":
+        n = rng.choice([200, 250, 253, 254, 255])
+        base = rng.choice(["E", "ER: FFFE ", "Fehler ü ", "客厅故障"])
+        t = G.fit_utf8(base * 300, n)
+        b = t.encode()
+        return w.f_ext(pid, w.X_ERR, bytes((rng.randint(0, 3), len(b))) + b), kind
+    if kind == "version":
+        sep = "|" if gen == 4 else ","
+        n = rng.choice([200, 250, 253, 254, 255])
+        vs = []
+        while True:
+            v = rng.choice(["10.20.30", "1.0.3", "255.255.255"])
+            if len(sep.join(vs + [v]).encode()) > n:
+                break
+            vs.append(v)
+        return w.f_ext(pid, w.X_VERSION, wire4.enc_version(rng.random() < 0.5, vs, sep)), kind
+    if kind == "names":
+        if gen == 4:
+            return w.f_ext(pid, w.X_NAMES, w.enc_names({i: G.fit_utf8(rng.choice(["Bedroom12", "Küche-OG", "居間居間居", "ABCDEFGH"]), 8) for i in range(16)})), kind
+        width = rng.choice([16, 20, 24])
+        return w.f_ext(pid, w.X_NAMES, w.enc_names({i: G.fit_utf8(rng.choice(["Sixteen Bytes Name Here!", "Küche im Obergeschoss links", "居間居間居間居間居間"]), width) for i in range(16)})), kind
+    # ability
+    if gen == 4:
+        inst = G.installation(rng, 4, allow_zero_zones=False, state=False)
+        return w.f_ext(pid, w.X_ABILITY, b"".join(w.enc_ability_record(dict(a, groups=list(range(16))), with_bitmap=True) for a in inst["acs"])), kind
+    n = rng.choice([8, 9, 10, 12, 16])
+    recs = []
+    for i in range(n):
+        a = G.installation(rng, 5, state=False)["acs"][0]
+        recs.append(w.enc_ability_record(dict(a, ac=i)))
+    return w.f_ext(pid, w.X_ABILITY, b"".join(recs)), kind
